@@ -85,13 +85,16 @@ contract(T + "._protein_to_vote", "C06", params={"protein": "obj:ActionProtein",
          options={"opaque_any_methods": True},
          ensures={"permit-only-for-permit-or-execute": "(result.vote_type == VoteType.PERMIT) == (protein.action_type == 'PERMIT' or protein.action_type == 'EXECUTE')",
                   "block-only-for-block": "(result.vote_type == VoteType.BLOCK) == (protein.action_type == 'BLOCK')",
+                  # "reported counts equal the ballots cast": the abstain count of _aggregate_votes counts ABSTAIN ballots only, so a DEFER
+                  # ballot and an unknown verdict must not be confused with each other
+                  "defer-only-for-defer": "(result.vote_type == VoteType.DEFER) == (protein.action_type == 'DEFER')",
                   "weight-from-profile": "result.weight == profile.weight * profile.reliability_score"})
 
 # the same function with a dictionary payload (the case the confidence clause is about): the reported confidence of a ballot is exactly the
 # one the voter stated -- in particular a stated 0 stays 0 (CONFIDENCE / WEIGHTED must not count it as support)
 shape("ActionProteinD", action_type="str", payload="dict:str,real", confidence="real", source_agent="opt:str", timestamp="datetime")
 contract(T + "._protein_to_vote", "C06", variant="dict-payload", params={"protein": "obj:ActionProteinD", "profile": "obj:AgentProfile"},
-         options={"opaque_any_methods": True},
+         options={"opaque_any_methods": True}, raises=[],
          ensures={"stated-confidence-is-reported": "implies('confidence' in protein.payload, result.confidence == protein.payload['confidence'])",
                   "default-confidence-only-when-unstated": "implies('confidence' not in protein.payload, result.confidence == 1.0)"})
 
